@@ -1,4 +1,6 @@
 import BppModel.Proto
+import BppModel.Drive.C01
+import BppModel.Drive.C02
 import BppModel.Drive.C05
 import BppModel.Drive.C07
 import BppModel.Drive.C11
@@ -8,6 +10,8 @@ open Bpp
 
 def main (args : List String) : IO UInt32 := do
   match args with
+  | ["C01"] => Proto.run Drive.C01.machine; return 0
+  | ["C02"] => Proto.run Drive.C02.machine; return 0
   | ["C05"] => Proto.run Drive.C05.machine; return 0
   | ["C07"] => Proto.run Drive.C07.machine; return 0
   | ["C11"] => Proto.run Drive.C11.machine; return 0
